@@ -207,6 +207,31 @@ func main() {
 		}
 	}
 
+	// thorough: a second, independent run with the guard facts enumerated in reverse order; the
+	// complete set of obligation keys and verdicts must be identical (a rule whose verdict depends
+	// on enumeration order is undecided, which fails the check)
+	var shuffled []byte
+	var shuffleErr error
+	if *tier == "thorough" && os.Getenv("FDCHECK_SHUFFLE") == "" {
+		if dumpKeys == nil {
+			dumpKeys = []string{}
+		}
+		tmp, err := os.CreateTemp("", "fdcheck-keys-*")
+		if err == nil {
+			tmp.Close()
+			wg.Add(1)
+			go func() {
+				defer wg.Done()
+				defer os.Remove(tmp.Name())
+				exe, _ := os.Executable()
+				cmd := exec.Command(exe, "-prop", *prop, "-repo", *repo, "-tier", "thorough", "-noselftest", "-tags", *tags)
+				cmd.Env = append(os.Environ(), "FDCHECK_NO_EVIDENCE=1", "FDCHECK_SHUFFLE=1", "VERIF_TIER=thorough", "FDCHECK_DUMP_KEYS="+tmp.Name())
+				_, _ = cmd.CombinedOutput()
+				shuffled, shuffleErr = os.ReadFile(tmp.Name())
+			}()
+		}
+	}
+
 	c, err := load(*repo, nil, *tags)
 	if err != nil {
 		fmt.Printf("LOAD-FAILURE: %v\n", err)
@@ -216,6 +241,21 @@ func main() {
 	c.Tier = *tier
 	rules := runProperty(c, *prop)
 	wg.Wait()
+	if *tier == "thorough" && os.Getenv("FDCHECK_SHUFFLE") == "" {
+		mine := append([]string(nil), dumpKeys...)
+		sort.Strings(mine)
+		r := &Rule{ID: *prop + ".ORDER", Engine: "-", Desc: "verdicts do not depend on the order in which facts are enumerated (second run with reversed guard-fact order)", Floor: 0, ctx: c, keys: map[string]bool{}}
+		r.Instances = 1
+		r.Obligations = 1
+		same := shuffleErr == nil && strings.TrimSpace(string(shuffled)) == strings.TrimSpace(strings.Join(mine, "\n"))
+		if same {
+			r.Discharged = 1
+			r.Samples = append(r.Samples, fmt.Sprintf("%d obligation keys and verdicts identical under reversed fact order", len(mine)))
+		} else {
+			r.Violations = append(r.Violations, Finding{Rule: r.ID, Key: r.ID + "|ORDER-DEPENDENT", Pos: "-", Msg: "the set of obligations or verdicts differs between two enumeration orders: some rule is order-dependent, its verdict is undecided"})
+		}
+		rules = append(rules, r)
+	}
 	if selftest != nil {
 		selftest["_collect"].(func())()
 		delete(selftest, "_collect")
